@@ -61,6 +61,8 @@ def exemption_predicate(F, R, G, rule):
         seen = set()
         for p in ps:
             atoms = paths.path_atoms(B, F, p)
+            if not paths.feasible(atoms):
+                continue
             res = paths.returned_variant(B, p)
             pos = [a[0] for a in atoms if a[1] is True]
             verdict = None
